@@ -55,6 +55,49 @@ class UnitResult:
         self.loopsig = ''           # signature of the cut loops of the function as it is now
 
 
+_SIG_ERR = re.compile(r"^([\w.<>]+)\(\) (got an unexpected keyword argument|got multiple values for argument|takes |missing \d+ required)")
+_MACH_QUALNAMES = {}
+
+
+def _machinery_qualnames():
+    """qualified names (as python 3.11+ prints them in call-signature TypeErrors) of every function, method, nested function and lambda defined by
+    the verification machinery (modules contracts.*, pyvc.*, vf.*), collected from the code objects of the loaded modules"""
+    mods = [m for n, m in list(sys.modules.items()) if n.split('.')[0] in ('contracts', 'pyvc', 'vf') and m is not None]
+    key = len(mods)
+    if key in _MACH_QUALNAMES:
+        return _MACH_QUALNAMES[key]
+    out = set()
+
+    def walk(code):
+        out.add(getattr(code, 'co_qualname', code.co_name))
+        for k in code.co_consts:
+            if hasattr(k, 'co_consts'):
+                walk(k)
+    for m in mods:
+        for v in list(vars(m).values()):
+            if getattr(v, '__module__', None) != m.__name__:
+                continue
+            if isinstance(v, type):
+                for w in vars(v).values():
+                    w = getattr(w, '__func__', w)
+                    if hasattr(w, '__code__'):
+                        walk(w.__code__)
+            elif hasattr(v, '__code__'):
+                walk(v.__code__)
+    _MACH_QUALNAMES.clear()
+    _MACH_QUALNAMES[key] = out
+    return out
+
+
+def _is_stub_signature_error(ex):
+    """a TypeError python raised AT A CALL because the callee's signature does not take the arguments, where the callee is a stand-in defined by
+    the machinery (a library stub without a keyword the library has): an engine limit, not an exception of the code"""
+    if not isinstance(ex, TypeError):
+        return False
+    m = _SIG_ERR.match(str(ex))
+    return bool(m) and m.group(1) in _machinery_qualnames()
+
+
 def _is_stub_object(o):
     """the object (or class) an attribute lookup failed on is defined by the verification machinery, not by the repository / libraries"""
     if o is None:
@@ -278,6 +321,9 @@ def _explore_once(unit, repo, extra_inline=()):
                     raise Unsupported('callee %s ran outside the engine (not rebuilt under the numpy shim): %s: %s' % (nat, type(ex).__name__, str(ex)[:120]))
                 if isinstance(ex, AttributeError) and not isinstance(ex, ModelledError) and _is_stub_object(getattr(ex, 'obj', None)):
                     # a stand-in for a library namespace (scipy.signal, interpolate, ...) lacks the attribute: an engine limit
+                    raise Unsupported('stub limit %s: %s' % (type(ex).__name__, ex))
+                if not isinstance(ex, ModelledError) and _is_stub_signature_error(ex):
+                    # a stand-in of the machinery was called with an argument its signature lacks (the library's function may well take it)
                     raise Unsupported('stub limit %s: %s' % (type(ex).__name__, ex))
                 if isinstance(ex, (AttributeError, TypeError)) and not isinstance(ex, ModelledError) and any(pn in str(ex) for pn in PROXY_NAMES):
                     # a method / operator / keyword the symbolic proxy does not model: a limit of the engine, not an exception of the code
